@@ -86,6 +86,17 @@ HIER = {
                               [('s1/exactly.suite', ['s1/a.case']), ('s2.suite', ['b.case']), ('main.suite', [])], 'main.suite'),
     'sub-glob-dirs3': ({'main.suite': (['c/*/'], ['m.case']), 'c/x/exactly.suite': ([], ['a.case']), 'c/y/exactly.suite': ([], ['b.case'])},
                        [('c/x/exactly.suite', ['c/x/a.case']), ('c/y/exactly.suite', ['c/y/b.case']), ('main.suite', ['m.case'])], 'main.suite'),
+    # an intermediate suite WITHOUT cases of its own that only lists sub-suites (file and directory form)
+    'aggregator-mid': ({'main.suite': (['mid.suite'], ['m.case']), 'mid.suite': (['leaf.suite'], []), 'leaf.suite': ([], ['x.case'])},
+                       [('leaf.suite', ['x.case']), ('mid.suite', []), ('main.suite', ['m.case'])], 'main.suite'),
+    'aggregator-mid-dirs': ({'main.suite': (['mid'], []), 'mid/exactly.suite': (['*/exactly.suite'], []), 'mid/l1/exactly.suite': ([], ['a.case']),
+                             'mid/l2/exactly.suite': ([], ['b.case'])},
+                            [('mid/l1/exactly.suite', ['mid/l1/a.case']), ('mid/l2/exactly.suite', ['mid/l2/b.case']), ('mid/exactly.suite', []), ('main.suite', [])], 'main.suite'),
+    # quoted names are plain names, also when they contain wildcard characters
+    'quoted-wildcards': ({'main.suite': ([], ["'t[1].case'", 't1.case'])}, [('main.suite', ['t[1].case', 't1.case'])], 'main.suite'),
+    'quoted-star': ({'main.suite': ([], ['"*.case"']), 'other.case': None}, [('main.suite', ['*.case'])], 'main.suite'),
+    'quoted-sub-suite-dir': ({'main.suite': (["'v[2]'"], ['m.case']), 'v[2]/exactly.suite': ([], ['a.case'])},
+                             [('v[2]/exactly.suite', ['v[2]/a.case']), ('main.suite', ['m.case'])], 'main.suite'),
 }
 INVALID = {
     'sub-twice': {'main.suite': (['s.suite', 's.suite'], ['c.case']), 's.suite': ([], ['x.case'])},
@@ -101,6 +112,8 @@ INVALID = {
     'syntax-error-conf': {'main.suite': ([], ['c.case'], '[conf]\nno-such-conf-instruction x\n')},
     'syntax-error-in-sub': {'main.suite': (['s.suite'], ['c.case']), 's.suite': ([], ['x.case'], '[setup]\nno-such-instruction\n')},
     'unknown-section': {'main.suite': ([], ['c.case'], '[no-such-section]\nx\n')},
+    'quoted-missing-with-wildcard-chars': {'main.suite': ([], ['c.case', "'gone[1].case'"])},
+    'quoted-missing-suite-with-wildcard-chars': {'main.suite': (["'no-such*.suite'"], ['c.case'])},
     'dir-without-default-suite': {'main.suite': (['emptydir'], ['c.case']), 'emptydir/readme.txt': None},
 }
 
